@@ -1473,8 +1473,9 @@ static void emit_data(Obj *prog) {
     int align = (var->ty->kind == TY_ARRAY && var->ty->size >= 16)
       ? MAX(16, var->align) : var->align;
 
-    // Common symbol
-    if (opt_fcommon && var->is_tentative) {
+    // Common symbol (there are no thread-local common symbols: a
+    // tentative thread-local definition goes to .tbss)
+    if (opt_fcommon && var->is_tentative && !var->is_tls) {
       println("  .comm %s, %d, %d", var->name, var->ty->size, align);
       continue;
     }
